@@ -37,7 +37,7 @@ Proof. exact s_req_ids_overlong. Qed.
 
 Theorem C24_overlong_reply_stuck : forall ops st, s_alive st = true -> ack_count st > 65535 ->
   Forall (fun e => let '(o, w, res) := e in
-            match o with SReqIds _ _ _ => w = None /\ res = RExceeded | SReqTxs _ _ => True end)
+            match o with SReqIds _ _ _ _ => w = None /\ res = RExceeded | SReqTxs _ _ => True end)
          (fst (s_run st ops)).
 Proof. exact run_stuck. Qed.
 
@@ -45,12 +45,27 @@ Proof. exact run_stuck. Qed.
 Theorem C24_bookkeeping : forall st b req rep st' w res,
   s_req_ids st b req rep = (st', Some w, res) ->
   match res with
-  | ROk n => rep = RIds n /\ st' = mkS n true
-  | RStop => rep = RDone /\ b = true /\ st' = mkS 0 true
+  | ROk n => rep = RIds n /\ st' = mkS n true true
+  | RStop => rep = RDone /\ b = true /\ st' = mkS 0 true false
   | RDown => s_alive st' = false
   | RExceeded | ROther => False
   end.
 Proof. exact s_req_ids_state. Qed.
+
+(* The session lifecycle: a RequestTxIds made while the current protocol instance has not
+   had its Init yet - before the first Init, or in the gap between the peer's Done and its
+   next Init - is queued with the acknowledgement count handleDone has already reset, so
+   it reaches the wire (after Init) with ack = 0, after every history whatsoever. *)
+Theorem C24_request_before_init : forall ops_before b req rep st' w res,
+  s_inited (snd (s_run s_init ops_before)) = false ->
+  s_step (snd (s_run s_init ops_before)) (SReqIds true b req rep) = (st', Some w, res) ->
+  w = WReqIds b 0 req.
+Proof.
+  intros ops b req rep st' w res I E.
+  destruct (gap_inv_run ops s_init) as [G _]; [intros _; reflexivity|].
+  cbn [s_step] in E. apply s_req_ids_sent in E. destruct E as (_ & _ & _ & ->).
+  rewrite (G I). reflexivity.
+Qed.
 
 (* Outbound side, every session: a request whose ack or req count is outside
    0..65535 is an error (no callback, no reply, session over); the callback sees
@@ -74,6 +89,7 @@ Proof.
 Qed.
 
 Print Assumptions C24_ack.
+Print Assumptions C24_request_before_init.
 Print Assumptions C24_ack_exact.
 Print Assumptions C24_range.
 Print Assumptions C24_overlong_reply_stuck.
@@ -83,18 +99,27 @@ Print Assumptions C24_statemap_done.
 (* ---- non-vacuity ---------------------------------------------------------------- *)
 Example C24_nonvacuous_server :
   map (fun e => (snd (fst e), snd e))
-      (fst (s_run s_init [SReqIds true 10 (RIds 3); SReqIds false 65535 (RIds 70000);
-                          SReqIds false 1 (RIds 1); SReqTxs 2 2; SReqIds true 5 RDone]))
+      (fst (s_run s_init [SReqIds false true 10 (RIds 3); SReqIds false false 65535 (RIds 70000);
+                          SReqIds false false 1 (RIds 1); SReqTxs 2 2; SReqIds false true 5 RDone]))
   = [(Some (WReqIds true 0 10), ROk 3); (Some (WReqIds false 3 65535), ROk 70000);
      (None, RExceeded); (Some (WReqTxs 2), ROk 2); (None, RExceeded)].
 Proof. vm_compute. reflexivity. Qed.
 
 Example C24_nonvacuous_done :
   map (fun e => (snd (fst e), snd e))
-      (fst (s_run s_init [SReqIds true 10 (RIds 3); SReqIds true 2 RDone; SReqIds false 65536 (RIds 1);
-                          SReqIds false 7 (RIds 2); SReqIds false 7 RDone; SReqIds false 7 (RIds 2)]))
+      (fst (s_run s_init [SReqIds false true 10 (RIds 3); SReqIds false true 2 RDone; SReqIds false false 65536 (RIds 1);
+                          SReqIds false false 7 (RIds 2); SReqIds false false 7 RDone; SReqIds false false 7 (RIds 2)]))
   = [(Some (WReqIds true 0 10), ROk 3); (Some (WReqIds true 3 2), RStop); (None, RExceeded);
      (Some (WReqIds false 0 7), ROk 2); (Some (WReqIds false 2 7), RDown); (None, RDown)].
+Proof. vm_compute. reflexivity. Qed.
+
+(* the gap between Done and the next Init, and a call before the first Init *)
+Example C24_nonvacuous_gap :
+  map (fun e => (snd (fst e), snd e))
+      (fst (s_run s_init [SReqIds true true 4 (RIds 9); SReqIds false true 2 RDone;
+                          SReqIds true false 7 (RIds 2); SReqIds false false 1 (RIds 0)]))
+  = [(Some (WReqIds true 0 4), ROk 9); (Some (WReqIds true 9 2), RStop);
+     (Some (WReqIds false 0 7), ROk 2); (Some (WReqIds false 2 1), ROk 0)].
 Proof. vm_compute. reflexivity. Qed.
 
 Example C24_nonvacuous_client :
